@@ -1062,9 +1062,11 @@ class IterateCycles:
             self.ncycles = cycle_vect.max() + 1
             self.nsamples = cycle_vect.shape[0]
         if self.subset_vect is not None:
-            self.nsubset = subset_vect.max() + 1
+            # A recording without any cycle has an empty subset vector
+            self.nsubset = subset_vect.max() + 1 if len(subset_vect) > 0 else 0
         if self.chain_vect is not None:
-            self.nchain = chain_vect.max() + 1
+            # An empty selection has no chains at all
+            self.nchain = chain_vect.max() + 1 if len(chain_vect) > 0 else 0
 
     @property
     def niters(self):
@@ -1074,9 +1076,9 @@ class IterateCycles:
         elif self.iter_through == 'valids':
             return self.valids.sum() + 1
         elif self.iter_through == 'subset':
-            return self.subset_vect.max() + 1
+            return self.nsubset
         elif self.iter_through == 'chains':
-            return self.chain_vect.max() + 1
+            return self.nchain
 
     def __iter__(self):
         if self.iter_through == 'cycles':
